@@ -54,6 +54,13 @@ func (c *Ctx) Thorough() bool { return c.Tier == "thorough" }
 var digitRe = regexp.MustCompile(`[0-9]+`)
 
 func (c *Ctx) Violate(what string, replay interface{}) {
+	if r, ok := replay.(map[string]interface{}); ok {
+		if st, _ := r["stalled"].(bool); st {
+			// reported from a timed scenario whose clock stopped being faithful (Exec.stallCheck): not judged
+			c.Rep.Notes = append(c.Rep.Notes, "dropped (harness stalled): "+what)
+			return
+		}
+	}
 	// keep at most 3 reports of the same shape (numbers abstracted) so that one recurring
 	// finding cannot crowd out a different one
 	key := digitRe.ReplaceAllString(what, "N")
